@@ -357,7 +357,7 @@ func accepted(acc [][]int, got []int) bool {
 // set of keys is small and stable: a failure that was visible at the operand before one that was hidden
 // behind a channel / eager conversion, Join before Chain before UnmarshalJSON.
 func worst(div []string) string {
-	for _, k := range []string{"join", "chain", "unjson", "join~hidden", "chain~hidden"} {
+	for _, k := range []string{"join", "chain", "unjson", "unjson~closehook", "join~hidden", "chain~hidden", "unjson~hidden"} {
 		for _, d := range div {
 			if d == k {
 				return k
